@@ -92,6 +92,9 @@ enum Resp {
     Cut,
     /// the peer keeps the connection open and never answers (only with a caller that gives up: `cancel`)
     Hang,
+    /// the peer waits this many milliseconds before it answers with the following element (a producer that
+    /// stalls and then continues); invisible to the model
+    Stall(u64),
 }
 #[derive(Clone, Copy, PartialEq, Debug)]
 enum Open {
@@ -193,6 +196,7 @@ fn resp_word(r: &Resp) -> String {
         Resp::Error => "e".into(),
         Resp::Cut => "x".into(),
         Resp::Hang => "h".into(),
+        Resp::Stall(ms) => format!("z{ms}"),
     }
 }
 fn parse_resp(w: &str) -> Option<Resp> {
@@ -200,6 +204,7 @@ fn parse_resp(w: &str) -> Option<Resp> {
         "e" => Some(Resp::Error),
         "x" => Some(Resp::Cut),
         "h" => Some(Resp::Hang),
+        _ if w.starts_with('z') => w[1..].parse().ok().map(Resp::Stall),
         _ => {
             let p: Vec<&str> = w.split(':').collect();
             if p.len() == 3 && p[0] == "c" {
@@ -322,6 +327,7 @@ impl Script {
             match r {
                 // a response frame (48-byte header, 1-byte query, body) over the client's inbound limit
                 // never reaches the puller: the connection ends there
+                Resp::Stall(_) => continue,
                 Resp::Chunk(b, _) if self.wl.map(|n| 49 + b.len() > n).unwrap_or(false) => return None,
                 Resp::Chunk(b, last) => {
                     acc.extend_from_slice(b);
@@ -523,11 +529,17 @@ fn answer(f: &RawFrame, reg: &Reg, ids: &AtomicU64, streams: &mut HashMap<u64, A
             let Some(sess) = beve::from_slice::<NextReq>(&f.body).ok().and_then(|r| streams.get(&r.stream_id).cloned()) else {
                 return frame(f.h.id, 3, 0, b"", 3, b"unknown stream");
             };
-            let r = {
-                let mut p = sess.pos.lock().unwrap();
-                let r = sess.script.wire.get(*p).cloned().unwrap_or(Resp::Cut);
-                *p += 1;
-                r
+            let r = loop {
+                let r = {
+                    let mut p = sess.pos.lock().unwrap();
+                    let r = sess.script.wire.get(*p).cloned().unwrap_or(Resp::Cut);
+                    *p += 1;
+                    r
+                };
+                match r {
+                    Resp::Stall(ms) => std::thread::sleep(Duration::from_millis(ms)),
+                    r => break r,
+                }
             };
             let st = sess.script.style;
             match r {
@@ -542,7 +554,7 @@ fn answer(f: &RawFrame, reg: &Reg, ids: &AtomicU64, streams: &mut HashMap<u64, A
                     styled(frame(f.h.id, ec, 0, b"", 3, body), st)
                 }
                 Resp::Cut => Act::Close,
-                Resp::Hang => Act::Silent,
+                Resp::Hang | Resp::Stall(_) => Act::Silent,
             }
         }
         _ => frame(f.h.id, 6, 0, b"", 3, b"no route"),
@@ -655,6 +667,33 @@ fn rej() -> RepeError {
 }
 
 /// Call the real puller. `seen` records what the caller-supplied `verify` was handed.
+/// Every `io::ErrorKind` a caller's source / sink / body may fail with (an error is an error: none of them
+/// may read as "end of input"). `Interrupted` is the one kind `io::copy` / `write_all` retry by contract.
+const KINDS: &[(&str, std::io::ErrorKind)] = {
+    use std::io::ErrorKind::*;
+    &[
+        ("NotFound", NotFound), ("PermissionDenied", PermissionDenied), ("ConnectionRefused", ConnectionRefused),
+        ("ConnectionReset", ConnectionReset), ("HostUnreachable", HostUnreachable), ("NetworkUnreachable", NetworkUnreachable),
+        ("ConnectionAborted", ConnectionAborted), ("NotConnected", NotConnected), ("AddrInUse", AddrInUse),
+        ("AddrNotAvailable", AddrNotAvailable), ("NetworkDown", NetworkDown), ("BrokenPipe", BrokenPipe),
+        ("AlreadyExists", AlreadyExists), ("WouldBlock", WouldBlock), ("NotADirectory", NotADirectory),
+        ("IsADirectory", IsADirectory), ("DirectoryNotEmpty", DirectoryNotEmpty), ("ReadOnlyFilesystem", ReadOnlyFilesystem),
+        ("StaleNetworkFileHandle", StaleNetworkFileHandle), ("InvalidInput", InvalidInput), ("InvalidData", InvalidData),
+        ("TimedOut", TimedOut), ("WriteZero", WriteZero), ("StorageFull", StorageFull), ("NotSeekable", NotSeekable),
+        ("QuotaExceeded", QuotaExceeded), ("FileTooLarge", FileTooLarge), ("ResourceBusy", ResourceBusy),
+        ("ExecutableFileBusy", ExecutableFileBusy), ("Deadlock", Deadlock), ("CrossesDevices", CrossesDevices),
+        ("TooManyLinks", TooManyLinks), ("InvalidFilename", InvalidFilename), ("ArgumentListTooLong", ArgumentListTooLong),
+        ("Unsupported", Unsupported), ("UnexpectedEof", UnexpectedEof), ("OutOfMemory", OutOfMemory), ("Other", Other),
+        ("Interrupted", Interrupted),
+    ]
+};
+fn kind_of(name: &str) -> std::io::ErrorKind {
+    KINDS.iter().find(|(n, _)| *n == name).map(|(_, k)| *k).unwrap_or(std::io::ErrorKind::Other)
+}
+fn kind_name(k: std::io::ErrorKind) -> &'static str {
+    KINDS.iter().find(|(_, x)| *x == k).map(|(n, _)| *n).unwrap_or("Other")
+}
+
 /// A digest sink that refuses (Err) or dies (panic) once more than `limit` bytes were fed to it.
 struct FaultyDigest {
     buf: Vec<u8>,
@@ -662,6 +701,8 @@ struct FaultyDigest {
     /// 0 plain, 1 short writes (one byte per call), 2 `Interrupted` on every other call, 3 slow
     mode: u8,
     calls: u64,
+    /// the kind of the error it refuses with
+    kind: std::io::ErrorKind,
 }
 impl Write for FaultyDigest {
     fn write(&mut self, b: &[u8]) -> std::io::Result<usize> {
@@ -670,7 +711,7 @@ impl Write for FaultyDigest {
                 if pan {
                     std::panic::panic_any(DigestDied);
                 }
-                return Err(std::io::Error::other("digest sink refused"));
+                return Err(std::io::Error::new(self.kind, "digest sink refused"));
             }
         }
         self.calls += 1;
@@ -720,17 +761,23 @@ impl Conn {
     }
 }
 
-#[derive(Clone, Copy, Default)]
+#[derive(Clone, Copy)]
 struct Knobs {
     verify_ok: bool,
     verify_kind: u8,
     dfault: Option<(u64, bool)>,
     via_ps: bool,
     digest_mode: u8,
+    digest_kind: std::io::ErrorKind,
+}
+impl Default for Knobs {
+    fn default() -> Knobs {
+        Knobs { verify_ok: false, verify_kind: 0, dfault: None, via_ps: false, digest_mode: 0, digest_kind: std::io::ErrorKind::Other }
+    }
 }
 impl Knobs {
     fn of(sc: &Script) -> Knobs {
-        Knobs { verify_ok: sc.verify_ok, verify_kind: sc.verify_kind, dfault: sc.dfault, via_ps: sc.via_ps, digest_mode: ((sc.style >> 21) & 3) as u8 }
+        Knobs { verify_ok: sc.verify_ok, verify_kind: sc.verify_kind, dfault: sc.dfault, via_ps: sc.via_ps, digest_mode: ((sc.style >> 21) & 3) as u8, digest_kind: KINDS[((sc.style >> 25) & 63) as usize % (KINDS.len() - 1)].1 }
     }
 }
 
@@ -773,7 +820,7 @@ fn call_on(rt: &tokio::runtime::Runtime, conn: &Conn, p: Puller, resource: &str,
             verify_behaviour(k)
         }
     };
-    let dg = FaultyDigest { buf: vec![], limit: k.dfault, mode: k.digest_mode, calls: 0 };
+    let dg = FaultyDigest { buf: vec![], limit: k.dfault, mode: k.digest_mode, calls: 0, kind: k.digest_kind };
     match conn {
         Conn::Ws(c) => rt.block_on(async move {
             match p {
@@ -1091,6 +1138,9 @@ impl Ctx {
     }
 
     fn exec_script(&mut self, out: &mut Out, idx: &str, sc: &Script, flavour: u8) {
+        if should_stop(out) {
+            return;
+        }
         if sc.sync_fault && !self.syncfault_ok {
             out.count("syncfault.skipped-not-injectable");
             return;
@@ -1167,6 +1217,9 @@ impl Ctx {
 impl Ctx {
     /// `sibling <i> <name>`: which other directory entry exists while `verify` runs = the temp sibling's name.
     fn exec_sibling(&mut self, out: &mut Out, idx: &str, name: &str) {
+        if should_stop(out) {
+            return;
+        }
         let op = format!("sibling {} {}", idx, hex(name.as_bytes()));
         out.begin(&op);
         let (res, dir) = self.fresh();
@@ -1200,6 +1253,9 @@ impl Ctx {
     /// `nest <i> <nameA> <nameB> SCRIPT_A :: SCRIPT_B`: pull B (blocking puller) runs to its end inside
     /// pull A's `verify`, in the same directory, i.e. while A's temp file is complete and not yet renamed.
     fn exec_nest(&mut self, out: &mut Out, idx: &str, na: &str, nb: &str, a: &Script, b: &Script) {
+        if should_stop(out) {
+            return;
+        }
         let op = format!("nest {} {} {} {} :: {}", idx, hex(na.as_bytes()), hex(nb.as_bytes()), a.words(), b.words());
         out.begin(&op);
         let (ra, dir) = self.fresh();
@@ -1252,7 +1308,7 @@ fn hits_cut(sc: &Script) -> bool {
     }
     for r in &sc.wire {
         match r {
-            Resp::Chunk(_, false) => continue,
+            Resp::Chunk(_, false) | Resp::Stall(_) => continue,
             Resp::Chunk(_, true) | Resp::Error => return false,
             Resp::Cut | Resp::Hang => return true,
         }
@@ -1265,6 +1321,9 @@ impl Ctx {
     /// Each must behave as on a fresh client in the same abstract state: destination = what the previous
     /// steps left, connection = alive unless an earlier step ran into a cut (then every call fails).
     fn exec_seq(&mut self, out: &mut Out, idx: &str, old: bool, steps: &[Script], same_resource: bool) {
+        if should_stop(out) {
+            return;
+        }
         let op = format!("seq {} {} {}", idx, if old { format!("old:{}", hex(OLD)) } else { "none".into() }, steps.iter().map(|s| s.words()).collect::<Vec<_>>().join(" :: "));
         out.begin(&op);
         let (base, dir) = self.fresh();
@@ -1353,7 +1412,7 @@ fn rand_style(rng: &mut Rng) -> u64 {
 
 async fn pull_async_on(c: &AsyncClient, sc: &Script, resource: &str, dest: &Path) -> Result<(), RepeError> {
     let k = Knobs::of(sc);
-    let dg = FaultyDigest { buf: vec![], limit: k.dfault, mode: k.digest_mode, calls: 0 };
+    let dg = FaultyDigest { buf: vec![], limit: k.dfault, mode: k.digest_mode, calls: 0, kind: k.digest_kind };
     match sc.puller {
         Puller::FileAsync => repe::pull_to_file_async(c, resource, dest).await.map(|_| ()),
         Puller::VerifiedAsync => repe::pull_to_file_verified_async(c, resource, dest, dg, move |_d: FaultyDigest| verify_behaviour(k)).await,
@@ -1366,6 +1425,9 @@ impl Ctx {
     /// runtime whose blocking pool has N threads, one of them occupied when the pulls start; through one
     /// shared AsyncClient or one each; each into its own destination. Each must behave as if alone.
     fn exec_par(&mut self, out: &mut Out, idx: &str, bp: usize, shared: bool, scripts: &[Script]) {
+        if should_stop(out) {
+            return;
+        }
         let op = format!("par {} {} {} {}", idx, bp, shared as u8, scripts.iter().map(|s| s.words()).collect::<Vec<_>>().join(" :: "));
         out.begin(&op);
         let (base, dir) = self.fresh();
@@ -1426,6 +1488,9 @@ impl Ctx {
     /// `cancel <i> <ms> SCRIPT :: saw`: an async pull whose peer stops answering (`h`) is dropped by its caller
     /// after <ms>; afterwards the destination must be one of the states a kill could leave.
     fn exec_cancel(&mut self, out: &mut Out, idx: &str, ms: u64, sc: &Script) {
+        if should_stop(out) {
+            return;
+        }
         let (name, dir) = self.fresh();
         let dest = prepare(&dir, sc.dest);
         self.fake.register(&name, sc, 0);
@@ -1513,6 +1578,8 @@ struct FailingReader {
     panics: bool,
     slow: bool,
     calls: u64,
+    kind: std::io::ErrorKind,
+    interrupted_once: bool,
 }
 
 /// A value whose `Serialize` impl panics when it reaches element `at` (a dying producer body).
@@ -1547,7 +1614,16 @@ impl Read for FailingReader {
                 if self.panics {
                     panic!("source panics");
                 }
-                return Err(std::io::Error::other("source failed"));
+                if self.kind == std::io::ErrorKind::Interrupted {
+                    // transient by contract: fail once, then carry on to the real end of the data
+                    if !self.interrupted_once {
+                        self.interrupted_once = true;
+                        return Err(std::io::Error::new(self.kind, "interrupted"));
+                    }
+                    self.fail_at = None;
+                    return self.read(out);
+                }
+                return Err(std::io::Error::new(self.kind, "source failed"));
             }
             return Ok(0);
         }
@@ -1581,11 +1657,20 @@ struct Real {
     level: i32,
     /// the producer body pauses between its writes / reads
     slow: bool,
+    /// the kind of the `io::Error` the body fails with (when it does not panic). `Interrupted` is transient:
+    /// returned once, then the source goes on (std's `io::copy` retries it) — the stream completes.
+    ekind: std::io::ErrorKind,
+}
+
+impl Real {
+    fn kind_is_transient(&self) -> bool {
+        self.ekind == std::io::ErrorKind::Interrupted
+    }
 }
 
 fn start_real(r: &Real, zstd: bool) -> SocketAddr {
     let opts = StreamOpts { chunk_bytes: r.chunk, compression: if zstd { Compression::Zstd } else { Compression::None }, zstd_level: r.level, session_depth: r.depth };
-    let (payload, fail, panics, slow) = (r.payload.clone(), r.fail, r.panics, r.slow);
+    let (payload, fail, panics, slow, kind) = (r.payload.clone(), r.fail, r.panics, r.slow, r.ekind);
     let router = if r.kind == 2 {
         Router::new().with_value_stream(move |res: &str| (res == "blob").then(|| PanicSeq { data: payload.clone(), at: fail }), opts)
     } else if r.kind == 1 {
@@ -1606,14 +1691,14 @@ fn start_real(r: &Real, zstd: bool) -> SocketAddr {
                         if fail.is_some() && panics {
                             panic!("writer body panics");
                         }
-                        if fail.is_some() { Err(std::io::Error::other("writer aborted")) } else { Ok(()) }
+                        if fail.is_some() { Err(std::io::Error::new(kind, "writer aborted")) } else { Ok(()) }
                     }
                 })
             },
             opts,
         )
     } else {
-        Router::new().with_reader_stream(move |res: &str| (res == "blob").then(|| FailingReader { data: payload.clone(), pos: 0, fail_at: fail, panics, slow, calls: 0 }), opts)
+        Router::new().with_reader_stream(move |res: &str| (res == "blob").then(|| FailingReader { data: payload.clone(), pos: 0, fail_at: fail, panics, slow, calls: 0, kind, interrupted_once: false }), opts)
     };
     let server = Server::new(router);
     let l = server.listen("127.0.0.1:0").expect("bind");
@@ -1627,6 +1712,9 @@ fn start_real(r: &Real, zstd: bool) -> SocketAddr {
 /// What the client of a real server sees (C09's sequencing: full chunks, one-chunk lookahead, a
 /// failure replaces the chunk that would have been delivered when it is noticed).
 fn real_wire(r: &Real, zstd: bool) -> (Vec<Resp>, Dec) {
+    if r.kind == 0 && !r.panics && r.kind_is_transient() && r.fail.is_some() {
+        return real_wire(&Real { fail: None, ..r.clone() }, zstd);
+    }
     if r.kind == 2 {
         // what is streamed is the BEVE encoding; where a panicking element falls inside it is the
         // encoder's business (a failing script whatever was delivered)
@@ -1663,12 +1751,15 @@ fn real_wire(r: &Real, zstd: bool) -> (Vec<Resp>, Dec) {
 
 impl Ctx {
     fn exec_real(&mut self, out: &mut Out, idx: &str, r: &Real, sc: &Script) {
+        if should_stop(out) {
+            return;
+        }
         let op = format!(
             "real {} {} {} {} {} {} {}",
             idx,
             format!("{}@l{}{}", ["reader", "writer", "value"][r.kind as usize], r.level, if r.slow { "@slow" } else { "" }),
             r.chunk,
-            r.fail.map(|n| format!("{}{}", if r.panics { "p" } else { "" }, n)).unwrap_or("-".into()),
+            r.fail.map(|n| format!("{}{}{}", if r.panics { "p" } else { "" }, n, if r.panics || r.ekind == std::io::ErrorKind::Other { String::new() } else { format!("@{}", kind_name(r.ekind)) })).unwrap_or("-".into()),
             r.depth,
             hex(&r.payload),
             sc.words()
@@ -1863,6 +1954,9 @@ fn proto_violation(toks: &[String]) -> Option<(usize, &'static str)> {
 
 impl Ctx {
     fn exec_trace(&mut self, out: &mut Out, idx: &str, sc: &Script) {
+        if should_stop(out) {
+            return;
+        }
         if !self.strace_ok {
             out.count("trace.skipped-no-strace");
             return;
@@ -1899,6 +1993,9 @@ impl Ctx {
 
     /// Kill the child on entry to the N-th `syscall` touching dest/temp, for N = 1, 2, … until it survives.
     fn exec_kills(&mut self, out: &mut Out, idx0: &mut u64, sc: &Script, limit: u64) {
+        if should_stop(out) {
+            return;
+        }
         if !self.strace_ok {
             out.count("kill.skipped-no-strace");
             return;
@@ -1972,6 +2069,9 @@ impl Ctx {
     /// consume[async] / consumeerr[async] / consumepanic[async] (pull_consume[_async] with a consumer that reads
     /// to the end and returns the bytes / then returns Err / panics on entry).
     fn exec_value(&mut self, out: &mut Out, idx: &str, mode: &str, sc: &Script, need: usize) {
+        if should_stop(out) {
+            return;
+        }
         let asyn = mode.ends_with("async");
         let base = mode.trim_end_matches("async");
         let base = if base.is_empty() { "sync" } else { base };
@@ -2165,6 +2265,12 @@ fn dec_for(sc: &Script) -> Dec {
 
 static T0: std::sync::OnceLock<Instant> = std::sync::OnceLock::new();
 
+/// On a broken tree: enough failing inputs, or some and a minute gone — stop generating (the verdict needs a
+/// replay, not a census). Never true on a tree that passes.
+fn should_stop(out: &Out) -> bool {
+    out.oracle_failures >= 12 || (out.oracle_failures >= 1 && T0.get_or_init(Instant::now).elapsed() > Duration::from_secs(40))
+}
+
 fn gen_and_run(args: &Args, out: &mut Out, ctx: &mut Ctx) {
     let mut rng = Rng::new(args.seed);
     let thorough = args.thorough();
@@ -2174,6 +2280,57 @@ fn gen_and_run(args: &Args, out: &mut Out, ctx: &mut Ctx) {
         format!("{pfx}{i}")
     };
 
+    T0.get_or_init(Instant::now);
+    // (Z) a producer that stalls mid-stream and then goes on: the stream is complete, nothing may be lost or
+    //     doubled. Thorough: stalls just over 10 s (no timer exists in the pull paths of the unchanged tree — fact
+    //     `pullPathsHaveNoTimers` — so the only internal timeout a change can bring is one we cannot see: go over
+    //     the round figure a maintainer would pick). Quick: 300 ms.
+    {
+        let stalls: &[(Puller, u64, usize)] = if args.thorough() { &[(Puller::FileAsync, 11_500, 1), (Puller::TrailerAsync, 10_300, 2), (Puller::File, 300, 1)] } else { &[(Puller::FileAsync, 300, 1), (Puller::Trailer, 200, 2)] };
+        let mut r0 = Rng::new(args.seed ^ 0x5747);
+        for (j, &(p, ms, at)) in stalls.iter().enumerate() {
+            let logical: Vec<u8> = r0.bytes(60);
+            let mut sc = make_script(p, false, &logical, &[20], None, false);
+            sc.wire.insert(at, Resp::Stall(ms));
+            sc.trailer = if p.has_trailer() { 5 } else { 0 };
+            sc.dest = if j % 2 == 0 { Dest::Old } else { Dest::None };
+            ctx.exec_script(out, &format!("z{j}"), &sc, 0);
+        }
+    }
+    // (EK) every io::ErrorKind a caller's code can fail with — the reader's `read`, the writer body, the digest sink:
+    //      an error is an error whatever its kind (only `Interrupted` from a `Read` is retried, by contract)
+    {
+        let mut r0 = Rng::new(args.seed ^ 0xE44);
+        let chunk = 16usize;
+        let payload: Vec<u8> = r0.bytes(70);
+        let ps = [Puller::File, Puller::Trailer, Puller::FileAsync, Puller::VerifiedAsync, Puller::TrailerAsync];
+        for (ki, &(kname, ekind)) in KINDS.iter().enumerate() {
+            for prod in 0..2u8 {
+                let p = ps[(ki + prod as usize) % ps.len()];
+                let zstd = (ki + prod as usize) % 5 == 0;
+                let fail = Some([17usize, 16, 33, 0, 69][(ki + prod as usize) % 5]);
+                let r = Real { kind: prod, panics: false, chunk, fail, depth: ki % 5, payload: payload.clone(), level: 3, slow: false, ekind };
+                let (wire, dec) = real_wire(&r, zstd);
+                let sc = Script { puller: p, zstd, beve: false, open: Open::Ok, verify_ok: true, trailer: if p.has_trailer() { 8 } else { 0 }, dest: if ki % 2 == 0 { Dest::Old } else { Dest::None }, dec, wire, wfault: None, sync_fault: false, ws: false, verify_panics: false, verify_kind: 0, dfault: None, via_ps: false, style: 0, wl: None };
+                out.count(&format!("real.errorkind.{kname}"));
+                ctx.exec_real(out, &format!("k{ki}p{prod}"), &r, &sc);
+            }
+            if ekind != std::io::ErrorKind::Interrupted {
+                // the digest sink refusing with this kind after 10 bytes
+                let p = [Puller::Trailer, Puller::VerifiedAsync, Puller::TrailerAsync][ki % 3];
+                let logical: Vec<u8> = r0.bytes(40);
+                let mut sc = make_script(p, false, &logical, &[13], None, false);
+                sc.trailer = if p.has_trailer() { 4 } else { 0 };
+                sc.dfault = Some((10, false));
+                sc.style = (ki as u64) << 25;
+                sc.dest = if ki % 2 == 0 { Dest::None } else { Dest::Old };
+                ctx.exec_script(out, &format!("k{ki}d"), &sc, 0);
+            }
+        }
+    }
+    if should_stop(out) {
+        return;
+    }
     if std::env::var("FAM_COMMIT_TIMING").is_ok() { eprintln!("[t] {:>6} ms  before A", T0.get_or_init(Instant::now).elapsed().as_millis()); }
     // (A) systematic: every puller x compression x destination x every fault position
     for &p in &PULLERS {
@@ -2258,6 +2415,9 @@ fn gen_and_run(args: &Args, out: &mut Out, ctx: &mut Ctx) {
         }
     }
 
+    if should_stop(out) {
+        return;
+    }
     if std::env::var("FAM_COMMIT_TIMING").is_ok() { eprintln!("[t] {:>6} ms  before A'", T0.get_or_init(Instant::now).elapsed().as_millis()); }
     // (A') the three async pullers over a WebSocketClient (same generic pull code, other transport)
     for &p in &[Puller::FileAsync, Puller::VerifiedAsync, Puller::TrailerAsync] {
@@ -2303,6 +2463,9 @@ fn gen_and_run(args: &Args, out: &mut Out, ctx: &mut Ctx) {
         }
     }
 
+    if should_stop(out) {
+        return;
+    }
     if std::env::var("FAM_COMMIT_TIMING").is_ok() { eprintln!("[t] {:>6} ms  before A''", T0.get_or_init(Instant::now).elapsed().as_millis()); }
     // (A'') where the temp file lives: names, parents, and two pulls side by side in one directory
     for name in ["out", "out.bin", "out.tar.gz", ".hidden", "a b.dat", "x.svspart", "caf\u{e9}.bin", "out.bin.svspart.bak"] {
@@ -2337,6 +2500,9 @@ fn gen_and_run(args: &Args, out: &mut Out, ctx: &mut Ctx) {
         }
     }
 
+    if should_stop(out) {
+        return;
+    }
     if std::env::var("FAM_COMMIT_TIMING").is_ok() { eprintln!("[t] {:>6} ms  before S", T0.get_or_init(Instant::now).elapsed().as_millis()); }
     // (S) sequences: 3-5 pulls through one client into one destination, mixing pullers of the same
     //     transport, complete and failing streams, rejected verification, a cut in the middle (dead client)
@@ -2382,6 +2548,9 @@ fn gen_and_run(args: &Args, out: &mut Out, ctx: &mut Ctx) {
         ctx.exec_seq(out, &next("q"), old, &steps, same);
     }
 
+    if should_stop(out) {
+        return;
+    }
     if std::env::var("FAM_COMMIT_TIMING").is_ok() { eprintln!("[t] {:>6} ms  before B", T0.get_or_init(Instant::now).elapsed().as_millis()); }
     // (B) random scripts: sizes around io::copy's 8 KiB buffer, empty chunks, mixed write sizes for TrailerHold
     let nrand = if thorough { 1500 } else { 260 };
@@ -2440,6 +2609,9 @@ fn gen_and_run(args: &Args, out: &mut Out, ctx: &mut Ctx) {
     }
     ZSTD_LEVEL.store(3, Ordering::Relaxed);
 
+    if should_stop(out) {
+        return;
+    }
     if std::env::var("FAM_COMMIT_TIMING").is_ok() { eprintln!("[t] {:>6} ms  before B'", T0.get_or_init(Instant::now).elapsed().as_millis()); }
     // (B') boundary values of the caller's parameters and of the stream: empty streams, zero bytes in the
     //      content, trailer_len 0 / huge / usize::MAX, every verify flavour, a digest sink that refuses or dies
@@ -2544,6 +2716,9 @@ fn gen_and_run(args: &Args, out: &mut Out, ctx: &mut Ctx) {
     }
     ZSTD_LEVEL.store(3, Ordering::Relaxed);
 
+    if should_stop(out) {
+        return;
+    }
     if std::env::var("FAM_COMMIT_TIMING").is_ok() { eprintln!("[t] {:>6} ms  before G2", T0.get_or_init(Instant::now).elapsed().as_millis()); }
     // (G2) counts in a row and internal sizes
     {
@@ -2639,6 +2814,9 @@ fn gen_and_run(args: &Args, out: &mut Out, ctx: &mut Ctx) {
         }
     }
 
+    if should_stop(out) {
+        return;
+    }
     if std::env::var("FAM_COMMIT_TIMING").is_ok() { eprintln!("[t] {:>6} ms  before L", T0.get_or_init(Instant::now).elapsed().as_millis()); }
     // (L) a starved blocking pool: concurrent async pulls on a runtime with 1-2 blocking threads, one busy
     for (j, bp) in [1usize, 1, 2, 1, 2, 1].into_iter().enumerate() {
@@ -2675,6 +2853,9 @@ fn gen_and_run(args: &Args, out: &mut Out, ctx: &mut Ctx) {
         ctx.exec_par(out, &next("l"), bp, shared, &scripts);
     }
 
+    if should_stop(out) {
+        return;
+    }
     if std::env::var("FAM_COMMIT_TIMING").is_ok() { eprintln!("[t] {:>6} ms  before M", T0.get_or_init(Instant::now).elapsed().as_millis()); }
     // (M) a pull dropped by its caller while the peer hangs, at every phase: before open is answered is not
     //     scriptable (open has no hang), so: after 0, 1, … chunks
@@ -2698,6 +2879,9 @@ fn gen_and_run(args: &Args, out: &mut Out, ctx: &mut Ctx) {
         ctx.exec_cancel(out, &next("m"), 2000, &sc);
     }
 
+    if should_stop(out) {
+        return;
+    }
     if std::env::var("FAM_COMMIT_TIMING").is_ok() { eprintln!("[t] {:>6} ms  before K", T0.get_or_init(Instant::now).elapsed().as_millis()); }
     // (K) pairs of producer-side knobs at their extremes (orthogonal array L8 over 7 two-level factors)
     for &p in &[Puller::File, Puller::TrailerAsync, Puller::FileAsync] {
@@ -2707,7 +2891,7 @@ fn gen_and_run(args: &Args, out: &mut Out, ctx: &mut Ctx) {
             let zstd = bit(3);
             let kind: u8 = if bit(6) { 1 } else { 0 };
             let fail = if bit(5) { Some(17usize) } else { None };
-            let r = Real { kind, panics: fail.is_some() && bit(4), chunk: if bit(0) { 1 << 20 } else { 1 }, fail, depth: if bit(1) { 64 } else { 0 }, payload: rng.bytes(len), level: if bit(2) { 19 } else { -7 }, slow: bit(4) };
+            let r = Real { kind, panics: fail.is_some() && bit(4), chunk: if bit(0) { 1 << 20 } else { 1 }, fail, depth: if bit(1) { 64 } else { 0 }, payload: rng.bytes(len), level: if bit(2) { 19 } else { -7 }, slow: bit(4), ekind: std::io::ErrorKind::Other };
             let (wire, dec) = real_wire(&r, zstd);
             let mut sc = Script { puller: p, zstd, beve: false, open: Open::Ok, verify_ok: true, trailer: if p.has_trailer() { if bit(5) { len } else { 0 } } else { 0 }, dest: if bit(1) { Dest::Old } else { Dest::None }, dec, wire, wfault: None, sync_fault: false, ws: false, verify_panics: false, verify_kind: 0, dfault: None, via_ps: false, style: 0, wl: None };
             sc.via_ps = p == Puller::File && bit(2);
@@ -2716,6 +2900,9 @@ fn gen_and_run(args: &Args, out: &mut Out, ctx: &mut Ctx) {
         }
     }
 
+    if should_stop(out) {
+        return;
+    }
     if std::env::var("FAM_COMMIT_TIMING").is_ok() { eprintln!("[t] {:>6} ms  before C", T0.get_or_init(Instant::now).elapsed().as_millis()); }
     // (C) the crate's own Server with failing reader / writer producers: failure after every chunk
     //     boundary +-1 byte
@@ -2755,7 +2942,7 @@ fn gen_and_run(args: &Args, out: &mut Out, ctx: &mut Ctx) {
                 };
                 for (kind, panics) in modes {
                 let fk = if kind == 2 { f.map(|n| n / 2) } else { f };
-                let r = Real { kind, panics, chunk, fail: fk, depth: rng.below(5) as usize, payload: if kind == 2 { payload[..payload.len() / 2].to_vec() } else { payload.clone() }, level: 3, slow: false };
+                let r = Real { kind, panics, chunk, fail: fk, depth: rng.below(5) as usize, payload: if kind == 2 { payload[..payload.len() / 2].to_vec() } else { payload.clone() }, level: 3, slow: false, ekind: std::io::ErrorKind::Other };
                 let (wire, dec) = real_wire(&r, zstd);
                 let mut sc = Script { puller: p, zstd, beve: kind == 2, open: Open::Ok, verify_ok: true, trailer: if p.has_trailer() { 8 } else { 0 }, dest: *rng.pick(&[Dest::None, Dest::Old]), dec, wire, wfault: None, sync_fault: false, ws: false, verify_panics: false, verify_kind: 0, dfault: None, via_ps: false, style: 0, wl: None };
                 if p.verifies() && f.is_none() && rng.chance(1, 3) {
@@ -2768,6 +2955,9 @@ fn gen_and_run(args: &Args, out: &mut Out, ctx: &mut Ctx) {
         }
     }
 
+    if should_stop(out) {
+        return;
+    }
     if std::env::var("FAM_COMMIT_TIMING").is_ok() { eprintln!("[t] {:>6} ms  before C'", T0.get_or_init(Instant::now).elapsed().as_millis()); }
     // (C') the producer-side knobs (`StreamOpts`): chunk sizes 1 … 1 MiB, zstd levels, channel depths 0 … 64,
     //      payload lengths 0, 1 and around a chunk, slow producers; also the `.beve` puller on a compressed
@@ -2784,7 +2974,7 @@ fn gen_and_run(args: &Args, out: &mut Out, ctx: &mut Ctx) {
             let zstd = p == Puller::Beve || (rng.chance(1, 3) && (len > 0 || kind == 2));
             let data: Vec<u8> = rng.bytes(if kind == 2 { len.min(300) } else { len });
             let fail = if len > 0 && rng.chance(1, 2) { Some(*rng.pick(&[0usize, 1, chunk.min(len) - 1, chunk.min(len), len - 1]).min(&data.len().saturating_sub(1))) } else { None };
-            let r = Real { kind, panics: fail.is_some() && rng.chance(1, 2), chunk, fail, depth: *rng.pick(&[0usize, 1, 2, 64]), payload: data, level: *rng.pick(&[1, 3, 19, -7]), slow: len <= 30 && rng.chance(1, 3) };
+            let r = Real { kind, panics: fail.is_some() && rng.chance(1, 2), chunk, fail, depth: *rng.pick(&[0usize, 1, 2, 64]), payload: data, level: *rng.pick(&[1, 3, 19, -7]), slow: len <= 30 && rng.chance(1, 3), ekind: KINDS[rng.below(KINDS.len() as u64 - 1) as usize].1 };
             let (wire, dec) = real_wire(&r, zstd);
             let stream_len = if kind == 2 { panic_seq_bytes(&r.payload).len() } else { r.payload.len() };
             let mut sc = Script { puller: p, zstd, beve: kind == 2, open: Open::Ok, verify_ok: !rng.chance(1, 5), trailer: if p.has_trailer() { *rng.pick(&[0usize, 1, stream_len, stream_len + 1]) } else { 0 }, dest: *rng.pick(&[Dest::None, Dest::Old]), dec, wire, wfault: None, sync_fault: false, ws: false, verify_panics: false, verify_kind: 0, dfault: None, via_ps: false, style: 0, wl: None };
@@ -2794,6 +2984,9 @@ fn gen_and_run(args: &Args, out: &mut Out, ctx: &mut Ctx) {
         }
     }
 
+    if should_stop(out) {
+        return;
+    }
     if std::env::var("FAM_COMMIT_TIMING").is_ok() { eprintln!("[t] {:>6} ms  before D", T0.get_or_init(Instant::now).elapsed().as_millis()); }
     // (D) value-returning pulls (every public entry point): the value spans the whole stream, truncated at every k
     for mode in ["sync", "async", "stream", "vec", "vecasync", "typed", "typedasync", "complex", "complexasync", "consume", "consumeasync", "consumeerr", "consumeerrasync", "consumepanic", "consumepanicasync"] {
@@ -2837,6 +3030,9 @@ fn gen_and_run(args: &Args, out: &mut Out, ctx: &mut Ctx) {
     }
     ZSTD_LEVEL.store(3, Ordering::Relaxed);
 
+    if should_stop(out) {
+        return;
+    }
     if std::env::var("FAM_COMMIT_TIMING").is_ok() { eprintln!("[t] {:>6} ms  before G", T0.get_or_init(Instant::now).elapsed().as_millis()); }
     // (G) write-side faults: the file system refuses a write (EFBIG under RLIMIT_FSIZE in the pulling child;
     //     stands for ENOSPC / EDQUOT / EIO too). The limit sweeps the first byte, every chunk boundary +-1,
@@ -2945,6 +3141,9 @@ fn gen_and_run(args: &Args, out: &mut Out, ctx: &mut Ctx) {
         }
     }
 
+    if should_stop(out) {
+        return;
+    }
     if std::env::var("FAM_COMMIT_TIMING").is_ok() { eprintln!("[t] {:>6} ms  before E", T0.get_or_init(Instant::now).elapsed().as_millis()); }
     // (E) syscall traces and (F) kill points, on the scripted peer
     let mut kidx = 0u64;
@@ -3076,7 +3275,7 @@ fn replay(ops: Vec<String>, out: &mut Out, ctx: &mut Ctx) {
             "real" => {
                 if w.len() > 7 {
                     if let Some((sc, _)) = Script::parse(&w[7..]) {
-                        let r = Real { level: w[2].split('@').find_map(|x| x.strip_prefix('l').and_then(|n| n.parse().ok())).unwrap_or(3), slow: w[2].contains("@slow"), kind: match w[2].split('@').next().unwrap_or("") { "writer" => 1, "value" => 2, _ => 0 }, panics: w[4].starts_with('p'), chunk: w[3].parse().unwrap_or(16), fail: w[4].trim_start_matches('p').parse().ok(), depth: w[5].parse().unwrap_or(4), payload: unhex(w[6]).unwrap_or_default() };
+                        let r = Real { level: w[2].split('@').find_map(|x| x.strip_prefix('l').and_then(|n| n.parse().ok())).unwrap_or(3), slow: w[2].contains("@slow"), kind: match w[2].split('@').next().unwrap_or("") { "writer" => 1, "value" => 2, _ => 0 }, panics: w[4].starts_with('p'), chunk: w[3].parse().unwrap_or(16), fail: w[4].trim_start_matches('p').split('@').next().and_then(|x| x.parse().ok()), ekind: w[4].split('@').nth(1).map(kind_of).unwrap_or(std::io::ErrorKind::Other), depth: w[5].parse().unwrap_or(4), payload: unhex(w[6]).unwrap_or_default() };
                         ctx.exec_real(out, &idx, &r, &sc);
                     }
                 }
